@@ -11,7 +11,7 @@ if ! git -C $W apply "$D/patch.diff" 2>/dev/null; then echo "RESULT $1 patch=DOE
 (cd $W && go build ./... >/dev/null 2>&1) || { echo "RESULT $1 build=FAIL"; reset; exit 2; }
 T=$(mktemp -d)
 for P in $(seq -w 1 20); do
-  ( mkdir -p $T/C$P; cp /verif/known_findings.txt $T/C$P/; /verif/bin/frpsa check -prop C$P -repo $W -verif $T/C$P 2>&1 | grep -E "^(VIOLATED|UNDECIDED|ERROR)" | cut -c1-260 > $T/out.$P ) &
+  ( mkdir -p $T/C$P; cp /verif/known_findings.txt $T/C$P/; ${BIN:-/verif/bin/frpsa} check -prop C$P -repo $W -verif $T/C$P 2>&1 | grep -E "^(VIOLATED|UNDECIDED|ERROR)" | cut -c1-260 > $T/out.$P ) &
 done
 wait
 N=0
